@@ -134,12 +134,12 @@ def _read_back(path, d_hint=None):
             # the file was opened without error and reading it failed later.  If the opened file hands out even one
             # atom record it has "returned atoms": that is an accepted file (with whatever records it gives), not a
             # rejected one.  (On the shipped implementation every rejection happens at open.)
+            # "opening the partial file raises an error": a file that was opened without error counts as accepted even if no
+            # record can be read from it afterwards
             got = _records_before_failure(path)
-            if got:
-                zero = {'neg': False, 'ip': 0, 'fr': 0}
-                return {'ok': True, 'natoms': -1, 'recs': got, 'box': [zero] * 9, 'title': [], 'fmt': [0, 0],
-                        'grid_exact': False, 'partial': type(exc).__name__}
-            return {'ok': False, 'exc': type(exc).__name__}
+            zero = {'neg': False, 'ip': 0, 'fr': 0}
+            return {'ok': True, 'natoms': -1, 'recs': got, 'box': [zero] * 9, 'title': [], 'fmt': [0, 0],
+                    'grid_exact': False, 'partial': type(exc).__name__}
     finally:
         try:
             g._file.close()
@@ -402,8 +402,10 @@ def final_event(data, default, workdir, trunc, recs, fmt, title, box):
     else:
         e['read'] = {'ok': False, 'natoms': -1, 'recs': [], 'box': [], 'title': [], 'fmt': [0, 0],
                      'exc': rd.get('exc')}
-    if trunc and rd['ok']:
-        ma, ex = _truncation_sweep(data, workdir, rd['recs'])
+    if trunc:
+        # (when the complete file itself is not read back, which the sibling property reports, the prefixes are still
+        # swept: none of them may be accepted before the box line)
+        ma, ex = _truncation_sweep(data, workdir, rd['recs'] if rd['ok'] else [{'complete_file_unreadable': True}])
         if ma > 0 and shift:
             ma = ma - shift if ma > len(default) else min(ma, 1)
         e['min_accepted'] = ma
